@@ -10,7 +10,7 @@ from ..num import wire, unwire, canon
 from ..pools import RecPool
 from . import C08
 
-STREAMS = ["linear", "rel", "switch", "stepwise", "buffer", "factory", "factory_env", "buffer_float"]
+STREAMS = ["linear", "rel", "switch", "stepwise", "buffer", "factory", "factory_env", "buffer_float", "ctl_float"]
 REGENERATE_SRC = True
 DRIVER_DEPENDS_ON_GENERATED = True
 RULE = ("every shipped periodic service is run by trio.run(run, clock=MockClock(autojump_threshold=0)) next to a "
@@ -123,6 +123,13 @@ def gen_case(rng, stream, maxp):
         case["periods"] = rng.randint(5, 40)
         case["writes"] = [[k, rng.randint(0, 50)] for k in range(case["periods"]) if rng.random() < 0.6]
         return case
+    elif stream == "ctl_float":
+        # controllers whose interval is not a binary fraction and whose service starts at any time of the
+        # clock: steps are due at start + k * interval (the model's exact times do not apply, 1e-6 allowed)
+        inner = gen_case(rng, rng.choice(["linear", "rel", "switch", "stepwise"]), 40)
+        return {**inner, "kind": "ctl_float", "inner": inner["kind"], "script": [], "periods": rng.randint(5, 40),
+                "window": rng.choice([0.1, 0.3, 0.7, 1.0, 2.5, 10.0, 1 / 3, 60.0]),
+                "start": rng.choice([0.0, 0.3, 0.05, 1.7, 3.0, 123.456, 1e6 + 0.1])}
     elif stream == "factory_env":
         # between boundaries: demand goes up / down / stays, children disable themselves or lower
         # their own demand (their supply stays) - so that supply == demand, supply > demand and
@@ -178,6 +185,8 @@ def impl(case):
         return impl_factory_env(case, interval, duration)
     if kind == "buffer_float":
         return impl_buffer_float(case)
+    if kind == "ctl_float":
+        return impl_ctl_float(case)
     p = case["pool"]
     pool = TimedPool(unwire(p["supply"]), unwire(p["demand"]), unwire(p["util"]), unwire(p["alloc"]))
     calls = []
@@ -325,6 +334,41 @@ def impl_buffer_float(case):
             "target_writes": [], "init": {}}
 
 
+def impl_ctl_float(case):
+    w, start = case["window"], case["start"]
+    p = case["pool"]
+    pool = TimedPool(unwire(p["supply"]), unwire(p["demand"]), unwire(p["util"]), unwire(p["alloc"]))
+    inner = {**case, "kind": case["inner"]}
+    try:
+        svc = build(inner, pool, [])
+        svc.interval = w
+    except Exception as e:
+        return {"ctor": type(e).__name__}
+    del pool.events[:]
+    err = []
+
+    async def runner():
+        await trio.sleep(start)
+        try:
+            await svc.run()
+        except trio.Cancelled:
+            raise
+        except BaseException as e:
+            err.append(type(e).__name__)
+
+    async def main():
+        with trio.move_on_after(start + case["periods"] * w - w / 8):
+            await runner()
+
+    try:
+        vclock.run(main, limit=100000)
+    except vclock.Livelock:
+        err.append("Livelock")
+    times = [ev[1] for ev in pool.events if ev[0] == MARKER[case["inner"]]]
+    return {"ctor": "ok", "error": err[0] if err else None, "times": times[:2000], "events": [], "step_times": [], "demands": [],
+            "target_writes": [], "init": {}}
+
+
 def impl_factory_env(case, interval, duration):
     """a FactoryPool under a scripted environment: between two boundaries the environment acts once; the
     state is recorded after its action and again shortly after the next boundary"""
@@ -406,7 +450,7 @@ def impl_factory_env(case, interval, duration):
 
 
 def line(case, o):
-    if o.get("ctor") != "ok" or case["kind"] == "buffer_float":
+    if o.get("ctor") != "ok" or case["kind"] in ("buffer_float", "ctl_float"):
         return None
     if case["kind"] == "factory_env":
         return {"kind": "factory_env", "children": [], "ops": o["trace"],
@@ -465,6 +509,18 @@ def oracle(case, o):
                 return out
             last = v
         return out
+    if kind == "ctl_float":
+        w, start = case["window"], case["start"]
+        if o["error"] == "Livelock":
+            return [("ctl-spins:%s" % case["inner"], "%s with interval %r started at %r: more than 100000 task steps without virtual time passing (%d regulation steps so far)" % (case["inner"], w, start, len(o["times"])))]
+        if o["error"]:
+            return [("run-raised:%s:%s" % (case["inner"], o["error"]), "%s.run() raised %s on a well-behaved pool" % (case["inner"], o["error"]))]
+        want = [start + k * w for k in range(case["periods"])]
+        tol = 1e-6 * max(1.0, w) + 1e-9 * start
+        if len(o["times"]) != len(want) or any(abs(a - b) > tol for a, b in zip(o["times"], want)):
+            i = next((i for i, (a, b) in enumerate(zip(o["times"], want)) if abs(a - b) > tol), min(len(want), len(o["times"])))
+            out.append(("step-times:%s" % case["inner"], "%s with interval %r started at %r: %d steps at %r..., expected %d steps at start + k*interval (first difference at step %d)" % (case["inner"], w, start, len(o["times"]), o["times"][max(0, i - 1):i + 2], len(want), i)))
+        return out
     if kind == "factory_env":
         # after every boundary the adjustment has been made: no active child without demand, nobody both
         # active and released, and - whenever the pool had less supply than requested or exactly as much
@@ -513,11 +569,17 @@ def oracle(case, o):
 
 
 def nontrivial(case, o):
-    return case["periods"] >= 5 and (len(case.get("script", [])) > 0 or case["kind"] == "factory")
+    return case["periods"] >= 5 and (len(case.get("script", [])) > 0 or case["kind"] in ("factory", "ctl_float"))
 
 
 def shrinks(case):
     if case["kind"] == "buffer_float":
+        return
+    if case["kind"] == "ctl_float":
+        if case["periods"] > 2:
+            yield {**case, "periods": case["periods"] // 2}
+        if case["start"]:
+            yield {**case, "start": 0.0}
         return
     if case["kind"] == "factory_env":
         sc = case["script"]
@@ -538,7 +600,7 @@ def shrinks(case):
 def run(ctx):
     for s in STREAMS:
         rng = ctx.rng(s)
-        n = ctx.n(60, 500) if not s.startswith("factory") else (ctx.n(10, 60) if s == "factory" else ctx.n(40, 400)) if s != "buffer_float" else ctx.n(60, 600)
+        n = ctx.n(60, 500) if not s.startswith("factory") else (ctx.n(10, 60) if s == "factory" else ctx.n(40, 400)) if s not in ("buffer_float", "ctl_float") else ctx.n(60, 600)
         cases = [gen_case(rng, s, ctx.n(120, 500)) for _ in range(n)]
         corr.run_stream(ctx, s, cases, impl, line, oracle, nontrivial, shrinks, expect)
 
